@@ -146,3 +146,17 @@ def assign_value(st: ast.AST) -> Tuple[Optional[ast.AST], Optional[ast.AST]]:
     if isinstance(st, ast.AnnAssign):
         return st.target, st.value
     return None, None
+
+
+def find_flow(root: ast.AST, value_src: str, use_src: str, var: str, binds: Optional[Binds] = None) -> List[Tuple[ast.AST, Binds]]:
+    """`use_src` mentions the name metavariable `var`.  Matches the use with the value written
+    in place (the canonical form folds single-use locals) or `var = value` somewhere in root
+    together with the use of that very name."""
+    inline = use_src.replace(var, "(" + value_src.strip() + ")")
+    r = find_all(root, inline, binds)
+    if r:
+        return r
+    out: List[Tuple[ast.AST, Binds]] = []
+    for _n, b in find_all(root, f"{var} = {value_src.strip()}", binds):
+        out += find_all(root, use_src, b)
+    return out
